@@ -804,6 +804,13 @@ func (fr *frame) instr(ins ssa.Instruction, back map[[2]int]bool) {
 	case *ssa.Store:
 		p := fr.val(x.Addr)
 		v := fr.val(x.Val)
+		if fa, ok := x.Addr.(*ssa.FieldAddr); ok {
+			if pt, ok := fa.X.Type().Underlying().(*types.Pointer); ok {
+				if st, ok := pt.Elem().Underlying().(*types.Struct); ok {
+					fr.quoteHook(x.Val, pt.Elem(), st.Field(fa.Field).Name(), v, x.Pos())
+				}
+			}
+		}
 		fr.nilCheck(p, "store")
 		fr.lockCheck(p, true, fr.pos(x.Pos()))
 		vc.storeLoc(fr.mem, fr.ptrLoc(p), fr.asTerm(v))
@@ -856,6 +863,7 @@ func (fr *frame) instr(ins ssa.Instruction, back map[[2]int]bool) {
 	case *ssa.ChangeType:
 		v := fr.val(x.X)
 		fr.mentionHook(x.X, x.Type(), v, x.Pos())
+		fr.quoteHook(x.X, x.Type(), "", v, x.Pos())
 		v.T = x.Type()
 		if v.L != nil {
 			fr.vals[x] = v
@@ -1028,6 +1036,54 @@ func (fr *frame) mentionHookNamed(src ssa.Value, what string, v Val, pos token.P
 	key := "mention " + label
 	goal := app("select", app("select", vc.get(fr.mem, comp), depRef), v.S)
 	vc.oblige("dep-recorded", fmt.Sprintf("%s/dep-recorded[%s#%d]", vc.Name, fr.siteLabel(label), fr.occ(key+fr.fn.Name())), fr.guard, goal, fr.pos(pos))
+}
+
+// textSource: the string is text of the translated program (a literal's value)
+func textSource(v ssa.Value, depth int) bool {
+	if depth > 4 {
+		return false
+	}
+	switch x := v.(type) {
+	case *ssa.Call:
+		if f := x.Call.StaticCallee(); f != nil && f.Name() == "StringVal" && f.Pkg != nil && f.Pkg.Pkg.Path() == "go/constant" {
+			return true
+		}
+	case *ssa.Phi:
+		for _, e := range x.Edges {
+			if textSource(e, depth+1) {
+				return true
+			}
+		}
+	}
+	return false
+}
+
+// quoteHook (C05): program text that ends up between Coq double quotes
+// (GallinaString, StringLiteral.Value) must not contain a double quote.
+func (fr *frame) quoteHook(src ssa.Value, to types.Type, field string, v Val, pos token.Pos) {
+	vc := fr.vc
+	if !vc.P.checkQuotes || vc.sortOf(v.T) != sStr {
+		return
+	}
+	n, ok := types.Unalias(to).(*types.Named)
+	if !ok || n.Obj().Pkg() == nil || !strings.HasSuffix(n.Obj().Pkg().Path(), "/internal/coq") {
+		return
+	}
+	switch {
+	case n.Obj().Name() == "GallinaString" && field == "":
+	case n.Obj().Name() == "StringLiteral" && field == "Value":
+	default:
+		return
+	}
+	if !textSource(src, 0) {
+		return
+	}
+	label := vc.P.srcText(fr.fn, pos, "call")
+	if label == "" {
+		label = n.Obj().Name()
+	}
+	goal := not(app("str.contains", v.S, smtString("\"")))
+	vc.oblige("quote-free", fmt.Sprintf("%s/quote-free[%s#%d]", vc.Name, fr.siteLabel(label), fr.occ("quote:"+label+fr.fn.Name())), fr.guard, goal, fr.pos(pos))
 }
 
 // nameSource: the string is the name of an identifier or a qualified / method name
